@@ -5,19 +5,28 @@ ID = "C09"
 LEAN_PROPS = ["FcpptProofs.Props.C09"]
 HARNESS = {"src": "harness/c09.cpp"}
 TIE = ("hand-written pointer-level model (FcpptModel/Model/C09.lean: address, parent_ link, child list per object) + differential "
-       "correspondence against the real fcppt::container::tree::object<int> under ASan/UBSan/LSan")
-RULE = ("histories of tree operations over a forest of <= 4 heap roots, operands chosen among all current nodes (n-th node in pre-order); "
+       "correspondence against the real fcppt::container::tree::object, instantiated with int and with a move-only value type, under "
+       "ASan/UBSan/LSan; every mutating line compares values, structure, every parent() link and the identity (address) of every object "
+       "before/after the operation with the model's ids")
+RULE = ("systematic batches: every ordered tree shape with <= 5 nodes (3 value patterns, as a root and hung below another node) under "
+        "every observer on every node and every ordered pair of nodes; every mutator on every node / every child position / every "
+        "ordered pair of nodes of two small trees (aliasing pairs included: same node, parent/child, siblings), each followed by all "
+        "observers on all nodes; two-step sequences (save-mutate-restore, detach-reattach, swap twice, move out and back); then "
+        "histories of tree operations over a forest of <= 4 heap roots, operands chosen among all current nodes (n-th node in pre-order); "
         "after every mutating line both sides print every node's value, child structure and whether parent() is exactly the owner "
         "(the harness additionally walks every parent chain); observers pre_order/to_root/depth/level/child_position/map/==/!= are "
-        "interleaved. quick: histories up to 25 lines, thorough: up to 40 lines. An evaluation is one operation line; it is non-trivial "
-        "if it is not skipped (skip:*), distinct = distinct (line, model result) pairs.")
+        "interleaved (also front/back, begin/end/rbegin/rend/size/empty, operator<<, sort(Predicate), object(T&&, child_list&&), value "
+        "arguments that alias the container), the object returned by pop/release is dumped before it is moved, and every mutating line "
+        "carries the identity vector (which objects are the same as before). quick: histories up to 25 lines, thorough: up to 40 lines. "
+        "An evaluation is one operation line; it is non-trivial if it is not skipped (skip:*), distinct = distinct (line, model result) pairs.")
 ASSUMPTIONS = [
+    "the behaviour of the non-copying members does not depend on the value type: the second instantiation (a move-only value type whose moved-from state keeps its number) is compared with the same model",
     "std::list<object> holds its elements by value with stable addresses: moving/swapping/sorting a list keeps element identity, copying constructs new elements",
     "std::list::sort is a stable sort (modelled by List.mergeSort)",
     "an object's address is a fresh natural number; T = int, a moved-from int keeps its value",
     "misuse creating self-ownership is excluded: moving a node into its own sub-tree, move-assigning from an ancestor, swapping ancestor and descendant",
 ]
-TRUSTED = ["harness/c09.cpp and the line protocol (vh.hpp, Proto.lean)",
+TRUSTED = ["harness/c09.cpp + harness/c09_body.cpp and the line protocol (vh.hpp, Proto.lean)",
            "g++ 12 + ASan/UBSan/LSan as witness for dangling links, double frees and leaks of the real template"]
 
 # (name, weight, arity description)
@@ -28,8 +37,10 @@ MUTATORS = [
     ("popb", 3), ("popf", 3), ("rel", 4),
     ("erase", 2), ("eraser", 2), ("clear", 1), ("sort", 3),
     ("swap", 7), ("cpa", 6), ("mva", 6), ("cpc", 3), ("mvc", 3),
+    ("sortp", 3), ("mkl", 2), ("pushbv", 2), ("pushfv", 1), ("insv", 2), ("setv", 2), ("pushbmv", 1), ("pushfmv", 1), ("setmv", 1),
 ]
-OBSERVERS = [("pre", 3), ("toroot", 3), ("depth", 2), ("level", 2), ("cpos", 1), ("cposk", 2), ("map", 2), ("eq", 3)]
+OBSERVERS = [("pre", 3), ("toroot", 3), ("depth", 2), ("level", 2), ("cpos", 1), ("cposk", 2), ("map", 2), ("eq", 3),
+             ("front", 1), ("back", 1), ("kids", 2), ("out", 2), ("obsall", 2)]
 
 
 def pick(rng, table):
@@ -74,9 +85,17 @@ def line(rng, name):
         return f"erase {node(rng)} {rng.below(12)}"
     if name == "eraser":
         return f"eraser {node(rng)} {rng.below(12)} {rng.below(12)}"
-    if name in ("clear", "sort", "cpc", "mvc", "pre", "toroot", "depth", "level", "map"):
+    if name in ("clear", "sort", "cpc", "mvc", "pre", "toroot", "depth", "level", "map", "front", "back", "kids", "out"):
         return f"{name} {node(rng)}"
-    if name in ("swap", "cpa", "mva", "cpos", "eq"):
+    if name == "obsall":
+        return "obsall"
+    if name == "sortp":
+        return f"sortp {node(rng)} {rng.below(4)}"
+    if name == "mkl":
+        return f"mkl {node(rng)} {val(rng)}"
+    if name == "insv":
+        return f"insv {node(rng)} {rng.below(12)} {node(rng)}"
+    if name in ("swap", "cpa", "mva", "cpos", "eq", "pushbv", "pushfv", "setv", "pushbmv", "pushfmv", "setmv"):
         a = node(rng)
         b = a if rng.chance(1, 25) else node(rng)
         return f"{name} {a} {b}"
@@ -97,24 +116,32 @@ def history(rng, maxlen, style):
     while len(ops) < n:
         if style == "assign":
             table = [("swap", 5), ("cpa", 5), ("mva", 5), ("cpc", 2), ("mvc", 2), ("pushb", 3), ("pushbt", 2), ("inst", 2),
-                     ("rel", 2), ("del", 1), ("toroot", 2), ("level", 1), ("pre", 1)]
+                     ("rel", 2), ("del", 1), ("toroot", 2), ("level", 1), ("pre", 1), ("mkl", 1), ("setv", 1), ("pushbv", 1),
+                     ("obsall", 1)]
             ops.append(line(rng, pick(rng, table)))
         elif style == "grow":
             table = [("pushb", 8), ("pushf", 4), ("ins", 6), ("pushbt", 3), ("inst", 3), ("cpa", 3), ("mva", 3), ("swap", 4), ("sort", 2),
                      ("rel", 1), ("popb", 1), ("set", 1), ("cpc", 1), ("pre", 3), ("toroot", 3), ("depth", 2), ("level", 2),
-                     ("cposk", 2), ("cpos", 1), ("map", 2), ("eq", 2), ("eraser", 1)]
+                     ("cposk", 2), ("cpos", 1), ("map", 2), ("eq", 2), ("eraser", 1), ("sortp", 2), ("insv", 1), ("kids", 1),
+                     ("front", 1), ("back", 1), ("out", 2), ("obsall", 1)]
             ops.append(line(rng, pick(rng, table)))
         elif rng.chance(1, 4):
             ops.append(line(rng, pick(rng, OBSERVERS)))
         else:
             ops.append(line(rng, pick(rng, MUTATORS)))
-    return ops[:maxlen]
+    ops = ops[:maxlen - 1]
+    ops.append("obsall")          # every history ends with every observer on every node
+    return ops
 
 
 def batches(rng, tier):
     thorough = tier == "thorough"
     maxlen = 40 if thorough else 25
     yield from shape_pair_batches(tier)
+    yield from shape_permuted_batches(tier)
+    yield from shape_observer_batches(tier)
+    yield from shape_op_batches(tier)
+    yield from two_step_batches(tier)
     for style, cnt_q, cnt_t in (("mixed", 4000, 40000), ("assign", 2000, 20000), ("grow", 1500, 15000)):
         r = rng.fork("hist-" + style)
         cnt = cnt_t if thorough else cnt_q
@@ -124,6 +151,15 @@ def batches(rng, tier):
             ops += history(r, maxlen, style)
         yield Batch(f"histories-{style}", ops, kind="history",
                     note=f"{cnt} histories of up to {maxlen} lines, style {style}")
+    # the same operation language on the instantiation with a move-only value type (copying operations answer skip:copy)
+    r = rng.fork("hist-moveonly")
+    cnt = 15000 if thorough else 1500
+    ops = []
+    for k in range(cnt):
+        ops.append("reset")
+        ops += ["M " + l for l in history(r, maxlen, "assign" if k % 3 == 0 else "mixed")]
+    yield Batch("histories-moveonly", ops, kind="history",
+                note=f"{cnt} histories of up to {maxlen} lines on object<move-only value type>")
 
 
 def shapes(n):
@@ -153,10 +189,10 @@ def build_lines(root, shape, values):
 
 
 def shape_pair_batches(tier):
-    """Systematic: every pair of tree shapes (<= 4 nodes quick, <= 5 thorough) holding the SAME values in pre-order (and one
+    """Systematic: every pair of tree shapes (<= 5 nodes quick, <= 6 thorough) holding the SAME values in pre-order (and one
     variant with a single differing value), compared with == / != in both directions, plus the observers on both. A comparison
     that looks only at the flattened sequence, at the sizes, or only at the first level is wrong on some pair."""
-    maxn = 5 if tier == "thorough" else 4
+    maxn = 6 if tier == "thorough" else 5
     sh = [(n, t) for n in range(1, maxn + 1) for t in shapes(n)]
     ops = []
     for na, a in sh:
@@ -181,6 +217,261 @@ def shape_pair_batches(tier):
                      "== / != both ways, on sub-trees and on a copy")
 
 
+def valued(shape, it):
+    """(value, [children]) with the values taken in pre-order"""
+    v = next(it)
+    return (v, [valued(k, it) for k in shape])
+
+
+def build_valued(root, t):
+    lines = [f"new {t[0]}"]
+
+    def rec(path, kids):
+        for j, k in enumerate(kids):
+            lines.append(f"pushb {path} {k[0]}")
+            rec(f"{path}.{j}", k[1])
+    rec(f"p{root}", t[1])
+    return lines
+
+
+def permute_at(t, path, perm):
+    """the tree with the children of the node at `path` (list of child indices) rearranged by `perm`"""
+    if not path:
+        return (t[0], [t[1][i] for i in perm])
+    kids = list(t[1])
+    kids[path[0]] = permute_at(kids[path[0]], path[1:], perm)
+    return (t[0], kids)
+
+
+def shape_permuted_batches(tier):
+    """Same multiset of children, different order: every shape (<= 5 nodes quick, <= 6 thorough) against the same tree with the
+    children of ONE node reversed / rotated (the sub-trees travel with their values). == must be false unless the rearranged
+    children are equal trees; a comparison that treats the child list as a multiset, or that looks at the sorted values, is wrong."""
+    maxn = 6 if tier == "thorough" else 5
+    ops = []
+
+    def inner(t, path):
+        out = [(path, t)]
+        for j, k in enumerate(t[1]):
+            out += inner(k, path + [j])
+        return out
+    for n in range(3, maxn + 1):
+        for sh in shapes(n):
+            for vals in (list(range(1, n + 1)), [7] * n):
+                t = valued(sh, iter(vals))
+                for path, sub in inner(t, []):
+                    k = len(sub[1])
+                    if k < 2:
+                        continue
+                    perms = [list(reversed(range(k)))]
+                    if k > 2:
+                        perms.append(list(range(1, k)) + [0])
+                    for perm in perms:
+                        u = permute_at(t, path, perm)
+                        ops.append("reset")
+                        ops += build_valued(0, t) + build_valued(1, u)
+                        ops += ["eq p0 p1", "eq p1 p0", "out p0", "out p1", "pre p0", "pre p1", "sort p0", "sort p1", "eq p0 p1"]
+    yield Batch("shape-permuted", ops, kind="history", exhaustive=True,
+                note=f"all shapes with <= {maxn} nodes against themselves with the children of one node reversed / rotated (distinct and "
+                     "all-equal values): == / != both ways, operator<<, pre_order, and == again after sorting both roots")
+
+
+def build_under(prefix, shape, values):
+    """lines that build the children of `shape` below the existing node `prefix`, whose value is set to values[0]"""
+    it = iter(values)
+    lines = [f"set {prefix} {next(it)}"]
+
+    def rec(path, kids):
+        for j, k in enumerate(kids):
+            lines.append(f"pushb {path} {next(it)}")
+            rec(f"{path}.{j}", k)
+    rec(prefix, shape)
+    return lines
+
+
+def node_paths(prefix, shape):
+    """[(path, shape of the sub-tree)] in pre-order"""
+    out = [(prefix, shape)]
+    for j, k in enumerate(shape):
+        out += node_paths(f"{prefix}.{j}", k)
+    return out
+
+
+def value_patterns(n):
+    """distinct values in pre-order; all equal (only addresses / structure distinguish nodes); unsorted with ties modulo 3"""
+    base = [3, -1, 4, 1, -5, 9, 2, -6, 5, 0, 7, -2]
+    return [list(range(1, n + 1)), [7] * n, [base[i % len(base)] for i in range(n)]]
+
+
+def shape_observer_batches(tier):
+    """Every observer on EVERY node and every ordered pair of nodes of every tree shape (<= 5 nodes; <= 6 thorough), for three
+    value patterns, with the shape once as a root and once hung below the middle child of another tree (so to_root / level /
+    child_position leave the shape)."""
+    maxn = 6 if tier == "thorough" else 5
+    ops = []
+    for n in range(1, maxn + 1):
+        for t in shapes(n):
+            for vals in value_patterns(n):
+                for ctx in (0, 1):
+                    ops.append("reset")
+                    if ctx == 0:
+                        ops += build_lines(0, t, vals)
+                        top = "p0"
+                    else:
+                        ops += ["new 100", "pushb p0 101", "pushb p0 0", "pushb p0 102", "pushb p0.2 103"]
+                        ops += build_under("p0.1", t, vals)
+                        top = "p0.1"
+                    nodes = [("p0", None)] + node_paths(top, t) if ctx else node_paths(top, t)
+                    for pth, _ in nodes:
+                        for o in ("pre", "toroot", "depth", "level", "map", "front", "back", "kids", "out"):
+                            ops.append(f"{o} {pth}")
+                    for pa, _ in nodes:
+                        for pb, _ in nodes:
+                            ops.append(f"cpos {pa} {pb}")
+                            ops.append(f"eq {pa} {pb}")
+                    ops.append("obsall")
+    yield Batch("shape-observers", ops, kind="history", exhaustive=True,
+                note=f"all ordered tree shapes with <= {maxn} nodes x 3 value patterns (distinct, all equal, ties) x 2 contexts (root, "
+                     "inner sub-tree): pre_order, to_root, depth, level, map, front, back, begin/end/rbegin/rend/size/empty, operator<< on "
+                     "every node; child_position and == / != on every ordered pair of nodes")
+
+
+COPY_CMDS = ("cpc", "cpa", "mkl", "pushbv", "pushfv", "insv", "setv")
+OTHER = [[[]], []]          # the second tree of the pair batches: 10(11(12) 13)
+OTHER_VALS = [10, 11, 12, 13]
+
+
+def unary_cases(pth, sub):
+    """every unary mutator applicable at a node with child shape list `sub`, at every position"""
+    k = len(sub)
+    out = ["clear {a}", "sort {a}", "sortp {a} 1", "sortp {a} 2", "sortp {a} 3", "popf {a} 0", "popf {a} 1", "popb {a} 0", "popb {a} 1",
+           "cpc {a}", "mvc {a}", "mkl {a} 50", "set {a} 51", "set {a} 52", "set {a} 53", "pushb {a} 54", "pushb {a} 55",
+           "pushf {a} 56", "pushf {a} 57"]
+    for i in range(k):
+        out += [f"rel {{a}} {i} 0", f"rel {{a}} {i} 1", f"erase {{a}} {i}"]
+    for i in range(k + 1):
+        out += [f"ins {{a}} {i} 58", f"ins {{a}} {i} 59"]
+        for j in range(i, k + 1):
+            out.append(f"eraser {{a}} {i} {j}")
+    return [o.format(a=pth) for o in out]
+
+
+def binary_cases(pa, ka, pb):
+    out = [f"swap {pa} {pb}", f"cpa {pa} {pb}", f"mva {pa} {pb}", f"pushbt {pa} {pb}", f"pushft {pa} {pb}",
+           f"setv {pa} {pb}", f"pushbv {pa} {pb}", f"pushfv {pa} {pb}", f"setmv {pa} {pb}", f"pushbmv {pa} {pb}",
+           f"pushfmv {pa} {pb}"]
+    for i in range(ka + 1):
+        out += [f"inst {pa} {i} {pb}", f"insv {pa} {i} {pb}"]
+    return out
+
+
+def shape_op_batches(tier):
+    """Every mutator on every node of every shape (<= 5 nodes quick, <= 6 thorough), at every child position, and every binary
+    operation on every ORDERED PAIR of nodes of the shape and of a second fixed tree (this contains every aliasing pattern:
+    a == b, b child / descendant / sibling / parent of a, different trees), each followed by every observer on every node."""
+    maxn = 6 if tier == "thorough" else 5
+    ops = []
+    for n in range(1, maxn + 1):
+        for t in shapes(n):
+            vals = value_patterns(n)[2]
+            setup = build_lines(0, t, vals) + build_lines(1, OTHER, OTHER_VALS)
+            na = node_paths("p0", t)
+            nb = node_paths("p1", OTHER)
+            for pth, sub in na:
+                for case in unary_cases(pth, sub):
+                    ops += ["reset"] + setup + [case, "obsall"]
+            # sorting children that are all equivalent (equal values, different sub-trees / identities): a stable sort moves nothing
+            eqsetup = build_lines(0, t, value_patterns(n)[1])
+            for pth, sub in na:
+                if len(sub) >= 2:
+                    for case in (f"sort {pth}", f"sortp {pth} 0", f"sortp {pth} 1", f"sortp {pth} 2", f"sortp {pth} 3"):
+                        ops += ["reset"] + eqsetup + [case, "obsall"]
+            for pa, sa in na + nb:
+                for pb, sb in na + nb:
+                    if n > 1 and pa.startswith("p1") and pb.startswith("p1"):
+                        continue          # independent of the shape: done once, with the one-node shape
+                    for case in binary_cases(pa, len(sa), pb):
+                        ops += ["reset"] + setup + [case, "obsall"]
+    # the move-only instantiation: the same cases (the copying ones are skipped there) for the shapes with one node less
+    mo = []
+    for n in range(1, maxn):
+        for t in shapes(n):
+            vals = value_patterns(n)[2]
+            setup = ["M " + l for l in build_lines(0, t, vals) + build_lines(1, OTHER, OTHER_VALS)]
+            na = node_paths("p0", t)
+            nb = node_paths("p1", OTHER)
+            for pth, sub in na:
+                for case in unary_cases(pth, sub):
+                    if case.split()[0] not in COPY_CMDS:
+                        mo += ["reset"] + setup + ["M " + case, "M obsall"]
+            for pa, sa in na + nb:
+                for pb, sb in na + nb:
+                    if n > 1 and pa.startswith("p1") and pb.startswith("p1"):
+                        continue
+                    for case in binary_cases(pa, len(sa), pb):
+                        if case.split()[0] not in COPY_CMDS:
+                            mo += ["reset"] + setup + ["M " + case, "M obsall"]
+    yield Batch("shape-ops-moveonly", mo, kind="history", exhaustive=True,
+                note=f"the non-copying cases of shape-ops for all shapes with <= {maxn - 1} nodes on object<move-only value type>")
+    yield Batch("shape-ops", ops, kind="history", exhaustive=True,
+                note=f"all shapes with <= {maxn} nodes: every unary mutator on every node and child position; swap / copy-assign / "
+                     "move-assign / push(tree) / insert(tree) / value-by-reference forms on every ordered pair of nodes (incl. same node, "
+                     "ancestor/descendant, siblings, other tree); all observers on all nodes after each")
+
+
+def two_step_batches(tier):
+    """Two- and three-step sequences whose net effect is known: save - mutate - restore, detach - re-attach, swap twice,
+    move out - move back, copy - compare - modify copy - compare (independence)."""
+    maxn = 5 if tier == "thorough" else 4
+    ops = []
+    muts = ["clear {a}", "sort {a}", "sortp {a} 1", "popf {a} 0", "popb {a} 0", "pushb {a} 60", "pushf {a} 61", "set {a} 62",
+            "ins {a} 1 63", "erase {a} 0", "eraser {a} 0 2", "mva {a} p1", "cpa {a} p1.0", "swap {a} p1.0", "pushbt {a} p1.0",
+            "inst {a} 0 p1"]
+    for n in range(1, maxn + 1):
+        for t in shapes(n):
+            vals = value_patterns(n)[2]
+            setup = build_lines(0, t, vals) + build_lines(1, OTHER, OTHER_VALS)
+            na = node_paths("p0", t)
+            for pth, sub in na:
+                k = len(sub)
+                # save (copy becomes root 2), mutate, compare, restore by copy assignment, compare, and the copy must be untouched
+                for m in muts:
+                    ops += ["reset"] + setup + [f"cpc {pth}", m.format(a=pth), f"eq {pth} p2", "pre p2", f"cpa {pth} p2",
+                                                 f"eq {pth} p2", "obsall"]
+                # modify the copy: the original must be untouched
+                for m in muts:
+                    ops += ["reset"] + setup + [f"cpc {pth}", m.format(a="p2"), f"eq {pth} p2", "obsall"]
+                # move out and back
+                ops += ["reset"] + setup + [f"mvc {pth}", "obsall", f"mva {pth} p2", "obsall"]
+                ops += ["reset"] + setup + [f"mvc {pth}", f"swap {pth} p2", "obsall"]
+                ops += ["reset"] + setup + [f"mkl {pth} 64", f"eq {pth} p2", f"mva {pth} p2", "obsall"]
+                # detach the i-th child and put it back at the same place / at every other place
+                for i in range(k):
+                    for j in range(k):
+                        ops += ["reset"] + setup + [f"rel {pth} {i} 1", "obsall", f"inst {pth} {j} p2", "obsall"]
+                if k:
+                    ops += ["reset"] + setup + [f"popb {pth} 1", f"pushbt {pth} p2", "obsall"]
+                    ops += ["reset"] + setup + [f"popf {pth} 1", f"pushft {pth} p2", "obsall"]
+                    ops += ["reset"] + setup + [f"popf {pth} 1", f"pushbt {pth} p2", "obsall"]      # rotation
+                # swap twice with every other non-related node, self-assignment chains
+                for pb, _ in na + node_paths("p1", OTHER):
+                    ops += ["reset"] + setup + [f"swap {pth} {pb}", f"swap {pth} {pb}", "obsall"]
+                    ops += ["reset"] + setup + [f"swap {pth} {pb}", f"swap {pb} {pth}", "obsall"]
+                    if pb.startswith(pth + "."):
+                        # the second operand lies below the first: it is gone after the first assignment
+                        ops += ["reset"] + setup + [f"cpa {pth} {pb}", "obsall"]
+                        ops += ["reset"] + setup + [f"mva {pth} {pb}", "obsall"]
+                    else:
+                        ops += ["reset"] + setup + [f"cpa {pth} {pb}", f"eq {pth} {pb}", f"cpa {pb} {pth}", "obsall"]
+                        ops += ["reset"] + setup + [f"mva {pth} {pb}", f"mva {pb} {pth}", "obsall"]
+                # sorting twice is sorting once; sorting by a predicate then by the default order
+                for kk in (0, 1, 2, 3):
+                    ops += ["reset"] + setup + [f"sortp {pth} {kk}", f"sortp {pth} {kk}", "sort " + pth, f"sortp {pth} 2", "obsall"]
+    yield Batch("two-step", ops, kind="history", exhaustive=True,
+                note=f"all shapes with <= {maxn} nodes, every node: save-mutate-restore, modify-the-copy, move out and back, "
+                     "detach and re-attach at every position, swap twice, assignment there and back, repeated sorts")
+
+
 def nontrivial(op, result):
     return not result.startswith("skip:") and result != "bad-op" and op != "reset"
 
@@ -190,14 +481,18 @@ MANIFEST = {
                    "parent_ link and by-value child list per object, every member function with the same writes to parent_ as the "
                    "code): the link invariant (every child's parent_ is the address of the object that lists it, roots have none, "
                    "addresses are unique and no link names a dead object) is proved preserved by every operation on every node for "
-                   "all histories; every operation is proved to refine the corresponding operation on plain rose trees; pre_order "
-                   "(explicit stack), to_root/level (pointer chasing), depth, child_position, map and == are proved equal to the "
-                   "recursive reference computations; copies are proved deep (fresh addresses, equal abstraction). The model is tied "
-                   "to the code by a differential correspondence over seeded operation histories under ASan/UBSan/LSan."),
+                   "all histories; a valid, non-misuse operation is proved never to fault (progress); every operation is proved to refine "
+                   "the corresponding operation on plain rose trees; pre_order (explicit stack), to_root/level (pointer chasing), depth, "
+                   "child_position, map and == are proved equal to the recursive reference computations, the traversals also as "
+                   "sequences of objects; sort()/sort(Predicate) is proved to be the unique stable ordered permutation of the same child "
+                   "objects; front/back/iterators/size/empty and operator<< are modelled (the printed characters are proved to determine "
+                   "the tree); copies are proved deep (fresh addresses, equal abstraction). The model is tied to the code by a differential "
+                   "correspondence (systematic batches over all tree shapes <= 5 nodes x all nodes / ordered pairs of nodes x all "
+                   "operations, two-step sequences, seeded histories; int and a move-only value type) under ASan/UBSan/LSan."),
     "level_note": ("Trusted: Lean kernel + propext/Classical.choice/Quot.sound; fidelity of the hand-written model outside the exercised "
                    "histories; harness and line protocol; std::list modelled as a by-value List with stable element identity. "
                    "Self-ownership misuse (move into own sub-tree, move-assign from an ancestor, swap of ancestor and descendant) is "
-                   "excluded by hypothesis and never generated. No sorry/axiom/native_decide."),
-    "technique": "Lean 4 proof over hand-written executable model + differential correspondence on histories (ASan/UBSan harness)",
+                   "excluded by hypothesis and answered skip:misuse. Addresses in the model are never reused. No sorry/axiom/native_decide."),
+    "technique": "Lean 4 proof over hand-written executable model + differential correspondence on systematic batches and histories (ASan/UBSan harness)",
     "design_ref": "DESIGN.md §5 C09, Appendix A.4",
 }
